@@ -395,7 +395,31 @@ def poly_part(run, tier, g):
             return -pexpr(d - 1)
         if op == 'power':
             return kterm.nat_power(RealType)(pexpr(d - 1), nat_exponent())
+        if r.random() < 0.35:
+            return kterm.divides(RealType)(pexpr(d - 1), pexpr(d - 1))      # a denominator that may vanish (x / 0 = 0 in the library)
         return kterm.divides(RealType)(pexpr(d - 1), Real(r.choice([1, 2, 3, Fraction(1, 2), 0])))
+
+    def quotient_goal():
+        """Equations about quotients whose denominator is not a non-zero constant: true ones (division is total, x / 0 = 0)
+        and the cancellation laws that fail where the denominator vanishes."""
+        dv = kterm.divides(RealType)
+        p_, q_, w_ = pexpr(r.choice([0, 1])), r.choice([pexpr(1), r.choice(xs), r.choice(xs) - r.choice(xs), Real(2) - Real(2)]), pexpr(1)
+        k = r.randrange(8)
+        if k == 0:
+            return dv(q_, rearr(q_)), Real(1)                       # q / q = 1: false where q = 0
+        if k == 1:
+            return dv(p_ * q_, q_), p_                              # p * q / q = p: false where q = 0
+        if k == 2:
+            return dv(p_, q_) * q_, p_                              # false where q = 0
+        if k == 3:
+            return dv(p_, q_) + dv(w_, q_), dv(p_ + w_, q_)         # true
+        if k == 4:
+            return dv(p_, q_), p_ * dv(Real(1), q_)                 # true
+        if k == 5:
+            return dv(q_, rearr(q_)) + Real(1), Real(2)
+        if k == 6:
+            return dv(q_, q_) * q_, q_                              # true (both 0 where q = 0)
+        return dv(p_, q_) - dv(p_, q_), Real(0)                     # true
 
     def nat_exponent():
         """A natural-number exponent: a numeral, or an expression in which subtraction is truncated."""
@@ -472,6 +496,8 @@ def poly_part(run, tier, g):
                 b = kterm.nat_power(RealType)(base, Nat(k_)) if r.random() < 0.6 else (Real(Fraction(py_sem(base)) ** k_) if base.is_number() else kterm.nat_power(RealType)(base, Nat(k_)))
                 if r.random() < 0.3:
                     a, b = a * base, b * base
+        if _ % 4 == 1:
+            a, b = quotient_goal()
         goal = Eq(a, b)
         th, err = check_step('real_norm', goal)
         run.stat('real_norm:' + ('acc' if th is not None else 'rej'))
@@ -479,8 +505,9 @@ def poly_part(run, tier, g):
         if th is None:
             continue
         acc += 1
-        for _ in range(6):
-            env = {v.name: Fraction(r.randint(-5, 5), r.randint(1, 4)) for v in xs}
+        import itertools
+        grid = [dict(zip('xyz', pt)) for pt in itertools.product([Fraction(0), Fraction(1), Fraction(-1), Fraction(2)], repeat=3)]
+        for env in [{v.name: Fraction(r.randint(-5, 5), r.randint(1, 4)) for v in xs} for _j in range(6)] + grid:
             try:
                 va, vb = valuation_eval(a, env), valuation_eval(b, env)
             except Exception:
